@@ -12,10 +12,10 @@ CLAIMED = {
           "Also proved: an item fails exactly for the enumerated prescribed errors and a file fails exactly when some item does, a tag is left unused, or the sink fails (item_error_iff, machine_err_iff). Partial: the per-directive meaning (exec_directive) is shared by machine and specification and tied to the code by the correspondence."),
  "C02": C("Theorems over every reachable state of the coordinator transition system (any in-flight task may complete next, any protocol-respecting result, any number of files): a final pass is in flight only when every reported dependency is finished, at most one task per file is in flight, finished is forever. Tie: every digraph on <=3 files (and every DAG on 4) x every input subset x every completion order through the scheduling hooks: trace, verdict and bytes against the model, outputs against a Python one-at-a-time build, stale outputs planted, snapshots taken by commands placed after the dependency directives.",
           "Coq proof (inductive coordinator invariant; frame, commutation and confluence of passes) + exhaustive controlled-schedule correspondence", "6 (C02), 12",
-          "Also proved: schedule_independence (two successful runs of the model under ANY two schedules end in the same tree, for projects with pairwise disjoint footprints; schedule_independence_temps extends it to projects with temp directives under the static hypothesis sched_ok_temps), passes with disjoint footprints commute, a first pass reports exactly its .txtpp-backed include/after targets and never reads their outputs. Partial: schedule independence with temp directives, and equality with a one-file-at-a-time build, rest on the exhaustive sweep. Real interleavings of system calls inside overlapping workers are not modelled."),
+          "Also proved: schedule_independence (two successful runs of the model under ANY two schedules end in the same tree, for projects with pairwise disjoint footprints; schedule_independence_temps extends it to projects with temp directives under the static hypothesis sched_ok_temps), passes with disjoint footprints commute, a first pass reports exactly its .txtpp-backed include/after targets and never reads their outputs. Partial: equality with a one-file-at-a-time build outside the static hypothesis sched_ok_temps rests on the exhaustive sweep. Real interleavings of system calls inside overlapping workers are not modelled. Also proved (FreshFacts): build_result_is_all_fresh - after a successful build every processed source's output equals the text a pass over the FINAL tree produces, so every include saw the complete final bytes of its dependency; ok_runs_same_processed."),
  "C03": C("Theorems: no task completes twice, done/total counters are exact, the number of tasks is bounded by 2*files+dirs, success implies every seen file finished, and txtpp_run terminates with fuel proportional to the number of .txtpp files and directories of the initial tree (txtpp_run_terminates), for every schedule. Tie: the exhaustive graph x schedule sweep with execution-count marker files, aliased and duplicate inputs.",
           "Coq proof (invariant + termination measure) + exhaustive controlled-schedule correspondence", "6 (C03)",
-          "Partial: termination of the child processes themselves is outside the model."),
+          "Partial: termination of the child processes themselves is outside the model. Also proved (MoreFacts3): the ERun events of a pass and of a whole successful run are exactly those prescribed per task, in trace order (pass_ok_runs, first_pass_deps_runs, run_commands_legal)."),
  "C04": C("Theorems: a run that reports success delivered no failed task result and finished every seen file (every schedule, every position in the graph); verify accepts iff the bytes are equal. Tie: fault matrix (11 fault kinds x 4 positions x 4 graph shapes x schedules) through the library against the model, and the real binary under /dev/full, RLIMIT_FSIZE and read-only directories.",
           "Coq proof (run-level simulation of the coordinator invariant) + fault-matrix correspondence", "6 (C04)",
           "Partial: OS fault behaviour (ENOSPC at flush, EFBIG) and BufWriter are exercised on the real binary, not modelled."),
@@ -23,16 +23,16 @@ CLAIMED = {
           "Coq proof (invariant, induction on Acc) + exhaustive controlled-schedule correspondence", "6 (C05)"),
  "C06": C("Theorems: the streaming verifier accepts iff the concatenation of all chunks equals the existing file, for every chunking; a missing output is a mismatch; a verify pass logs no event on the output path and unlogged paths keep their bytes. Tie: build, tamper (flip/insert/delete/truncate/extend/empty/remove, option flip), verify: verdict and bytes+mtime+inode of every output.",
           "Coq proof (induction over chunks; event-log frame) + history correspondence", "6 (C06)",
-          "Also proved at pass level: verify_pass_iff (a final verify pass succeeds iff the existing output holds exactly the text an in-memory build produces) and its corollaries for any differing byte / missing file. Partial: the lifting through the coordinator (dependencies verified too) is covered by the correspondence."),
+          "Also proved at pass level: verify_pass_iff (a final verify pass succeeds iff the existing output holds exactly the text an in-memory build produces) and its corollaries for any differing byte / missing file. Whole runs (VerifyRunFacts, FreshFacts): verify_iff_all_fresh - with enough fuel a Verify run succeeds IF AND ONLY IF the inputs resolve and every reached source is acyclic and its output holds exactly its fresh text; hence any stale, missing or altered output of a reached source fails the run under every schedule, and verify after a successful build passes and logs no event on any output (verify_after_build_passes). Static hypotheses: verify_static, temps_private, sched_ok_temps."),
  "C07": C("Theorems: a clean pass only logs removals, never consults the command oracle (the result is independent of it), never waits for dependencies, touches only its own output and temp targets, and unlogged paths keep their bytes. Tie: build then clean on generated projects (erroneous directives included): tree restored exactly, no marker written, no .txtpp deleted.",
           "Coq proof (event-log invariant, oracle independence) + build/clean history correspondence", "6 (C07)",
-          "Also proved at pass level: build_then_clean_restores_pass (a successful final Build pass followed by a Clean pass restores the tree when nothing was lying at the output and temp targets), clean removes the output, cleaning twice equals once. Partial: the whole-run statement (several files, first passes) is established by the correspondence."),
+          "Also proved at pass level: build_then_clean_restores_pass (a successful final Build pass followed by a Clean pass restores the tree when nothing was lying at the output and temp targets), clean removes the output, cleaning twice equals once. Whole runs (CleanRunFacts): any Clean run logs only removals (clean_run_no_command); build then clean restores the tree exactly when every dependency is itself cleaned and no footprint pre-existed (clean_after_build_restores; counterexample kept: clean does not follow dependencies); cleaning twice changes nothing."),
  "C08": C("Theorems (sink level): build truncates then appends; the verdict and result of temp writes and of --needed do not depend on the old bytes at the generated path. Tie: every generated project rebuilt from pre-states with absent/exact/prefix/extended/empty/stale/non-UTF-8 content at each generated path, and rebuilt twice: verdict and whole tree must equal the build from the clean tree.",
           "Coq proof (case analysis of the sinks) + pre-state history correspondence", "6 (C08)",
-          "Also proved: a pass depends on the tree only through look-ups (pp_run_ext), a Build pass ignores what lies at its output, the frame theorem, and for whole runs stale_outputs_irrelevant(_deps): two initial trees that differ only at output paths give the same verdict, trace and coordinator state under the same schedule, and agree afterwards on every rewritten output. stale_outputs_and_temps_irrelevant extends this to stale temp targets; the crash clause is proved on the model (interrupted_inside_pass_legal: a run cut after any prefix of its events has touched only footprints and left every source intact; interrupted_then_rebuild_exact: rebuilding from the interrupted tree gives the verdict, trace and tree of a build from the initial tree). Partial: the real kill and what the OS had buffered rest on SIGKILL/SIGTERM histories of the binary (25 quick / 400 thorough)."),
+          "Also proved: a pass depends on the tree only through look-ups (pp_run_ext), a Build pass ignores what lies at its output, the frame theorem, and for whole runs stale_outputs_irrelevant(_deps): two initial trees that differ only at output paths give the same verdict, trace and coordinator state under the same schedule, and agree afterwards on every rewritten output. stale_outputs_and_temps_irrelevant extends this to stale temp targets; the crash clause is proved on the model (interrupted_inside_pass_legal: a run cut after any prefix of its events has touched only footprints and left every source intact; interrupted_then_rebuild_exact: rebuilding from the interrupted tree gives the verdict, trace and tree of a build from the initial tree). Partial: the real kill and what the OS had buffered rest on SIGKILL/SIGTERM histories of the binary (25 quick / 400 thorough). Whole runs, any schedules (IdemFacts): build_function_of_sources (two trees that differ only on stale outputs/temp targets end in the same tree), build_idempotent, rebuild_interrupted, rebuild_events; interrupted_then_rebuild_temps_exact."),
  "C09": C("Theorems (sink level): --needed buffers, writes nothing when the file is already the fresh text, brings a stale file to exactly the fresh text; a temp file with correct content is not rewritten in any mode. Tie: pre-states x {needed, build, verify}: needed = build byte for byte, inode+mtime of correct files unchanged, stale ones updated.",
           "Coq proof (case analysis of the sinks) + inode/mtime history correspondence", "6 (C09)",
-          "Also proved at pass level: needed_pass_vs_build_pass (same verdict and same tree as a Build pass, modulo the output path on errors). Partial: the whole-run statement is established by the correspondence."),
+          "Also proved at pass level: needed_pass_vs_build_pass (same verdict and same tree as a Build pass, modulo the output path on errors). Whole runs (NeededRunFacts): needed_run_equals_build_run (same schedule: same verdict, trace and, on success, tree; any two schedules on success), needed_after_build_writes_nothing (file system EQUAL, only ERun events logged), needed_updates_exactly_stale, needed_rebuilds_stale. Static hypotheses needed_ok, temps_distinct; kept counterexample: a temp directive naming the source's own output makes Build and --needed differ (outside D2)."),
  "C10": C("Theorems: every event of a pass (any mode, any outcome) is on the output path or on the lexical normalisation of a temp target named in the source; OS resolution equals lexical normalisation; unlogged paths keep their bytes; the output is beside the source and differs from it. Tie: full-tree snapshots (bytes, inode, mtime) with decoys, four modes: the touched set equals the model's event log.",
           "Coq proof (event-log invariant over the item list, lifted to whole runs) + full-tree snapshot correspondence", "6 (C10)",
           "Also proved for whole runs, any mode and schedule (run_events_allowed_legal, run_frame_legal, verify_run_untouched_legal, clean_run_events_legal): every event is on the output or a temp target of a source that was given a pass."),
@@ -41,9 +41,10 @@ CLAIMED = {
           "Also proved: every file given a pass is an input, was returned by an earlier scan, or was reported by an earlier first pass (txtpp_run_only_required); clean follows no dependencies. Together with inputs_are_processed / dependencies_are_processed of C03 this is the processed-set statement."),
  "C12": C("Theorems (ingredients): lines are free of LF, and free of CR when CR occurs only before LF; tag content is re-joined with the file's ending (replace_line_ending_uniform). Tie: generated projects with independently mixed endings in first line, later lines, includes, command output, temp bodies, tag contents: byte-class scan of every generated file of the implementation.",
           "Coq proof (induction over lines) + byte-class scan correspondence", "6 (C12)",
-          "Proved for whole files through the in-memory sink (output_le_uniform) and for temp bodies; the Build sink receives the same chunks (correspondence). First-line sniffing on very long first lines is covered by the scan only."),
+          "Proved for whole files through the in-memory sink (output_le_uniform) and for temp bodies; First-line sniffing on very long first lines is covered by the scan only. Build sink and whole runs (BuildLeFacts): build_output_le_uniform, temp_files_le_uniform_build, run_outputs_le_uniform (after a successful build every output uses the ending of ITS OWN source's first line, also when it includes outputs with the other ending), under the domain condition D1 (kept counterexample: a lone CR in an included file reaches the output)."),
  "C13": C("Theorems: the option is consulted only in the epilogue; with it on, the buffer handed to the sink is the buffer with it off plus the line ending iff the pending-newline flag is set; the text is splice(chunks). Tie: every generated source built with the option on and off: identical or on = off + line ending, temp files identical, sources ending in a text line.",
-          "Coq proof (epilogue case analysis, splice lemma) + on/off pair correspondence", "6 (C13)"),
+          "Coq proof (epilogue case analysis, splice lemma) + on/off pair correspondence", "6 (C13)",
+          "On the Build sink (MoreFacts1): trailing_newline_build (the built file with the option is the file without it plus at most one final ending; identical verdicts; nothing else differs), build_ends_with_text_line."),
  "C14": C("Theorems: stored names are pairwise prefix-free in every reachable state; create fails exactly when documented; inject's result is invariant under permutation of the hash map (determinism); first occurrence replaced by normalised content then deleted; two tags left to right; overlapped occurrence left alone; never panics. Tie: exhaustive sweep (<=3 tags over prefix-related names x lines of <=5 symbols) with 8 fresh hash seeds per case, whole-file lifecycle cases.",
           "Coq proof (permutation invariance of a stable sort with distinct keys) + exhaustive differential sweep", "6 (C14)"),
  "C15": C("Theorems: detect_from = the documented grammar (iff), add_line = the documented continuation rule (iff), the white-space table is the 25 Unicode White_Space code points, the name table regenerated from the Rust source is the documented one. Tie: exhaustive sweep of all lines of <=4 tokens (22-token alphabet) and directive x continuation variants, vm_compute cross-check.",
@@ -55,7 +56,7 @@ CLAIMED = {
           "Partial: process creation and the shell are modelled by the invocation record. Known finding txtpp_file_nested is listed in known_findings.txt."),
  "C18": C("Theorems: one pass never panics whatever the bytes (slices at character boundaries, the assertion before tag injection, for all inputs); the dependency-counter unwrap never fails in any reachable state; a worker always sends a result; the whole run never panics and terminates within a fuel bound computed from the initial tree. Tie: robustness stream (random bytes, invalid UTF-8, NUL, lone CR, huge lines, cut multi-byte continuations) x modes x 0-16 threads with an any-thread panic hook and watchdog; CLI -j 0.",
           "Coq proof (UTF-8 boundary lemmas, coordinator invariant, termination measure) + robustness stream", "6 (C18)",
-          "Partial: memory exhaustion, blocking special files and non-terminating children are outside any executable model."),
+          "Partial: memory exhaustion, blocking special files and non-terminating children are outside any executable model. Also: txtpp_run_no_panic without any hypothesis, txtpp_run_ok_or_err."),
 }
 NOT_YET = {}
 ALL = ["C%02d" % i for i in range(1, 19)]
